@@ -119,7 +119,9 @@ def case_strategy(draw):
             ops.append(("write", vi, vals, draw(st.one_of(st.none(), st.sampled_from(["src", "o'k"])))))
     ops.append(("close",))
     return {"versions": versions, "ops": ops, "batch": draw(st.sampled_from([1, 2, 3, 4, 5, 6, 7, 1000])),
-            "batch2": draw(st.sampled_from([1, 2, 3, 5, 1000]))}
+            "batch2": draw(st.sampled_from([1, 2, 3, 5, 1000])),
+            # the producer re-uses its record objects: after write() returned it assigns other values to the same object
+            "reuse_records": draw(st.integers(0, 3)) == 0}
 
 
 def cell(t, v):
@@ -193,6 +195,14 @@ def run_history(case, batch, path, ctx, observe_steps):
                 res = impl(w.write, rec)
                 if not res.ok:
                     raise Violation(base + "/write-raised", "step %d: write of %r raised %r" % (step, rec, res), detail=res.type)
+                if case.get("reuse_records"):
+                    # what write() accepted is what was handed over AT THAT MOMENT: the model keeps an equal record of
+                    # its own, the producer's object gets other values right away
+                    snap = descs[vi](*vals, _source=src, _generated=GEN)
+                    for t_, n_ in case["versions"][vi][1]:
+                        impl(setattr, rec, n_, None)
+                    impl(setattr, rec, "_source", "reused-after-write")
+                    rec = snap
                 written.append((vi, rec))
                 if (len(written) - session_start) % batch == 0:
                     commit_points.add(len(written))
